@@ -513,7 +513,7 @@ theorem takeParent_neg_one {β : Type} (xs : List β) (d : β) : Kin.takeParent 
   have h : ((-1 : Int) % ((xs.length : Int) + 1)).toNat = xs.length := by
     have : (-1 : Int) % ((xs.length : Int) + 1) = (xs.length : Int) := by
       have h1 : (-1 : Int) % ((xs.length : Int) + 1)
-          = ((-1) + ((xs.length : Int) + 1)) % ((xs.length : Int) + 1) := Int.add_emod_right.symm
+          = ((-1) + ((xs.length : Int) + 1)) % ((xs.length : Int) + 1) := (Int.add_emod_right (-1) ((xs.length : Int) + 1)).symm
       rw [h1, show (-1 : Int) + ((xs.length : Int) + 1) = (xs.length : Int) by ring,
         Int.emod_eq_of_lt (by omega) (by omega)]
     rw [this]; simp
@@ -563,5 +563,433 @@ theorem w2jRow_equiv (g : Tf ℝ) (hg : g.rot.IsUnit) (s : Sys ℝ) (x : List (T
       takeParent_map_lt xd (rotM g) Motion.zero Motion.zero _ h0 h2,
       nth_map_lt _ _ (show i < x.length by omega), nth_map_lt _ _ (show i < xd.length by omega),
       Tf.doTf_assoc, toLocal_equiv g hg, jdOf_equiv g hg]
+
+/-! ## the action of `g` on a state -/
+
+/-- root links: `j` recomputed (as `world_to_joint` does for a root) from the transformed child
+anchor and the world-fixed parent anchor; other links: unchanged -/
+noncomputable def gJ (g : Tf ℝ) (parents : List Int) (a_p a_c j : List (Tf ℝ)) : List (Tf ℝ) :=
+  tab parents.length fun i =>
+    if parentOf parents i < 0 then Tf.toLocal (Tf.doTf g (nth a_c i)) (nth a_p i) else nth j i
+
+/-- root links: `jd` recomputed (as `world_to_joint` does for a root) from the rotated world
+velocity; other links: unchanged -/
+noncomputable def gJd (g : Tf ℝ) (parents : List Int) (a_p : List (Tf ℝ)) (xd jd : List (Motion ℝ)) :
+    List (Motion ℝ) :=
+  tab parents.length fun i =>
+    if parentOf parents i < 0 then
+      ⟨invRotate (rotate (nth xd i).ang g.rot) (nth a_p i).rot,
+       invRotate (rotate (nth xd i).vel g.rot) (nth a_p i).rot⟩
+    else nth jd i
+
+/-- **the rigid transform `g` acting on a spring state.**  `q'`, `qd'` are the generalized
+coordinates of the transformed state (the coordinates of the free roots change, see `ActAgree`). -/
+noncomputable def gState (g : Tf ℝ) (s : Sys ℝ) (st : Spring.State ℝ) (q' qd' : List ℝ) :
+    Spring.State ℝ :=
+  { q := q', qd := qd',
+    x := st.x.map (Tf.doTf g), xd := st.xd.map (rotM g),
+    x_i := st.x_i.map (Tf.doTf g), xd_i := st.xd_i.map (rotM g),
+    j := gJ g s.parents st.a_p st.a_c st.j,
+    jd := gJd g s.parents st.a_p st.xd st.jd,
+    a_p := gAp g s.parents st.a_p,
+    a_c := st.a_c.map (Tf.doTf g),
+    i_inv := st.i_inv.map (conjM g.rot),
+    mass := st.mass }
+
+/-- **`kinematics.world_to_joint` is equivariant** (list form): the four outputs `(j, jd, a_p, a_c)`
+of the transformed world poses/velocities are the action of `g` on the four outputs -/
+theorem worldToJoint_equiv (g : Tf ℝ) (hg : g.rot.IsUnit) (s : Sys ℝ) (x : List (Tf ℝ))
+    (xd : List (Motion ℝ)) (hfr : FreeRooted s) (hlinks : s.links.length = s.numLinks)
+    (hx : x.length = s.numLinks) (hxd : xd.length = s.numLinks) :
+    (Kin.worldToJoint (gSys g s) (x.map (Tf.doTf g)) (xd.map (rotM g))).map (·.1)
+        = gJ g s.parents ((Kin.worldToJoint s x xd).map (·.2.2.1)) ((Kin.worldToJoint s x xd).map (·.2.2.2))
+            ((Kin.worldToJoint s x xd).map (·.1))
+    ∧ (Kin.worldToJoint (gSys g s) (x.map (Tf.doTf g)) (xd.map (rotM g))).map (·.2.1)
+        = gJd g s.parents ((Kin.worldToJoint s x xd).map (·.2.2.1)) xd ((Kin.worldToJoint s x xd).map (·.2.1))
+    ∧ (Kin.worldToJoint (gSys g s) (x.map (Tf.doTf g)) (xd.map (rotM g))).map (·.2.2.1)
+        = gAp g s.parents ((Kin.worldToJoint s x xd).map (·.2.2.1))
+    ∧ (Kin.worldToJoint (gSys g s) (x.map (Tf.doTf g)) (xd.map (rotM g))).map (·.2.2.2)
+        = ((Kin.worldToJoint s x xd).map (·.2.2.2)).map (Tf.doTf g) := by
+  have hW' := worldToJoint_eq_tab (gSys g s) (x.map (Tf.doTf g)) (xd.map (rotM g))
+    (n := s.numLinks) hlinks (by simp [hx]) (by simp [hxd])
+  have hW := worldToJoint_eq_tab s x xd hlinks hx hxd
+  have hrow : ∀ i, i < s.numLinks → _ := fun i hi =>
+    w2jRow_equiv g hg s x xd hx hxd hi (hfr.hpar i hi)
+  refine ⟨?_, ?_, ?_, ?_⟩
+  · rw [hW', hW, tab_map, tab_map, tab_map, tab_map, gJ, hfr.hlen]
+    apply tab_congr
+    intro i hi
+    rw [hrow i hi, nth_tab _ hi, nth_tab _ hi, nth_tab _ hi]
+    by_cases hr : parentOf s.parents i < 0
+    · rw [if_pos hr, if_pos hr]
+    · rw [if_neg hr, if_neg hr]
+  · rw [hW', hW, tab_map, tab_map, tab_map, gJd, hfr.hlen]
+    apply tab_congr
+    intro i hi
+    rw [hrow i hi, nth_tab _ hi, nth_tab _ hi]
+    by_cases hr : parentOf s.parents i < 0
+    · rw [if_pos hr, if_pos hr]
+    · rw [if_neg hr, if_neg hr]
+  · rw [hW', hW, tab_map, tab_map, gAp, hfr.hlen]
+    apply tab_congr
+    intro i hi
+    rw [hrow i hi, nth_tab _ hi]
+    by_cases hr : parentOf s.parents i < 0
+    · rw [if_pos hr, if_pos hr]
+    · rw [if_neg hr, if_neg hr]
+  · rw [hW', hW, tab_map, tab_map, tab_map]
+    apply tab_congr
+    intro i hi
+    rw [hrow i hi]
+    by_cases hr : parentOf s.parents i < 0
+    · rw [if_pos hr]
+    · rw [if_neg hr]
+
+/-- the generalized coordinates of the two states agree wherever an actuator reads them.  (A
+rigid transform of the scene changes only the 7 + 6 coordinates of the free roots; brax actuators
+drive hinge/slide dofs, which belong to non-root links.) -/
+def ActAgree (s : Sys ℝ) (q qd q' qd' : List ℝ) : Prop :=
+  ∀ a ∈ s.acts, nthS q' a.qId = nthS q a.qId ∧ nthS qd' a.qdId = nthS qd a.qdId
+
+theorem zipWith_congr_mem {β γ δ : Type} (f f' : β → γ → δ) (as : List β) (us : List γ)
+    (h : ∀ a ∈ as, ∀ u, f a u = f' a u) : List.zipWith f as us = List.zipWith f' as us := by
+  induction as generalizing us with
+  | nil => simp
+  | cons a as ih =>
+    cases us with
+    | nil => simp
+    | cons u us =>
+      simp only [List.zipWith_cons_cons]
+      rw [h a (by simp) u, ih us (fun b hb => h b (by simp [hb]))]
+
+/-- `actuator.to_tau` reads `q`, `qd` only at the actuated coordinates (and not gravity) -/
+theorem toTau_congr (g : Tf ℝ) (s : Sys ℝ) (act q qd q' qd' : List ℝ) (h : ActAgree s q qd q' qd') :
+    toTau (gSys g s) act q' qd' = toTau s act q qd := by
+  unfold toTau
+  show (if s.acts.length = 0 then List.replicate s.nv 0 else _) = _
+  by_cases h0 : s.acts.length = 0
+  · rw [if_pos h0, if_pos h0]
+  · rw [if_neg h0, if_neg h0]
+    have hz := zipWith_congr_mem (fun a u => actForce a u (nthS q' a.qId) (nthS qd' a.qdId))
+      (fun a u => actForce a u (nthS q a.qId) (nthS qd a.qdId)) s.acts act
+      (by intro a ha u; simp only [(h a ha).1, (h a ha).2])
+    show segmentSum (List.zipWith _ s.acts act) _ s.nv = _
+    rw [hz]
+    rfl
+
+/-! ## the contact-free step, stage by stage -/
+
+/-- `xd_i` after the acceleration update -/
+noncomputable def midXd (s : Sys ℝ) (st : Spring.State ℝ) (act : List ℝ) : List (Motion ℝ) :=
+  Spring.accelerate s (Com.invInertia s st.x) st.mass st.xd_i
+    (Spring.resolve s st (toTau s act st.q st.qd))
+/-- `(x_i, xd_i)` after the integrator (no contacts: `xdv_i = 0`) -/
+noncomputable def stepXi (s : Sys ℝ) (st : Spring.State ℝ) (act : List ℝ) :
+    List (Tf ℝ) × List (Motion ℝ) :=
+  Spring.integrate s st.x_i (midXd s st act) (tab s.numLinks fun _ => (0 : Motion ℝ))
+/-- `(x, xd)` after the step -/
+noncomputable def stepXw (s : Sys ℝ) (st : Spring.State ℝ) (act : List ℝ) :
+    List (Tf ℝ) × List (Motion ℝ) :=
+  Com.toWorld s (stepXi s st act).1 (stepXi s st act).2
+/-- `(j, jd, a_p, a_c)` after the step -/
+noncomputable def stepW (s : Sys ℝ) (st : Spring.State ℝ) (act : List ℝ) :
+    List (Tf ℝ × Motion ℝ × Tf ℝ × Tf ℝ) :=
+  Kin.worldToJoint s (stepXw s st act).1 (stepXw s st act).2
+
+/-- `pipeline.step` without contacts, field by field -/
+theorem step_nil_eq (inv : List (Tf ℝ) → List (Motion ℝ) → List ℝ × List ℝ) (s : Sys ℝ)
+    (st : Spring.State ℝ) (act : List ℝ) :
+    Spring.step inv (fun _ => []) s st act
+      = { q := (inv ((stepW s st act).map (·.1)) ((stepW s st act).map (·.2.1))).1,
+          qd := (inv ((stepW s st act).map (·.1)) ((stepW s st act).map (·.2.1))).2,
+          x := (stepXw s st act).1, xd := (stepXw s st act).2,
+          x_i := (stepXi s st act).1, xd_i := (stepXi s st act).2,
+          j := (stepW s st act).map (·.1), jd := (stepW s st act).map (·.2.1),
+          a_p := (stepW s st act).map (·.2.2.1), a_c := (stepW s st act).map (·.2.2.2),
+          i_inv := Com.invInertia s st.x, mass := st.mass } := rfl
+
+theorem step_q (inv : List (Tf ℝ) → List (Motion ℝ) → List ℝ × List ℝ)
+    (cf : List (Tf ℝ) → List (Contact ℝ)) (s : Sys ℝ) (st : Spring.State ℝ) (act : List ℝ) :
+    (Spring.step inv cf s st act).q
+      = (inv (Spring.step inv cf s st act).j (Spring.step inv cf s st act).jd).1 := rfl
+theorem step_qd (inv : List (Tf ℝ) → List (Motion ℝ) → List ℝ × List ℝ)
+    (cf : List (Tf ℝ) → List (Contact ℝ)) (s : Sys ℝ) (st : Spring.State ℝ) (act : List ℝ) :
+    (Spring.step inv cf s st act).qd
+      = (inv (Spring.step inv cf s st act).j (Spring.step inv cf s st act).jd).2 := rfl
+theorem step_mass (inv : List (Tf ℝ) → List (Motion ℝ) → List ℝ × List ℝ)
+    (cf : List (Tf ℝ) → List (Contact ℝ)) (s : Sys ℝ) (st : Spring.State ℝ) (act : List ℝ) :
+    (Spring.step inv cf s st act).mass = st.mass := rfl
+theorem gState_mass (g : Tf ℝ) (s : Sys ℝ) (st : Spring.State ℝ) (q' qd' : List ℝ) :
+    (gState g s st q' qd').mass = st.mass := rfl
+
+/-! ## composition -/
+
+/-- the three array lengths the proof reads (a consequence of `State.WF`): `g` does not fix the
+default pose `Transform.zero` that the model returns outside an array, so the arrays of *poses*
+whose rows are read through `map` must really have one row per link -/
+structure LenOK (s : Sys ℝ) (st : Spring.State ℝ) : Prop where
+  x : st.x.length = s.numLinks
+  x_i : st.x_i.length = s.numLinks
+  a_c : st.a_c.length = s.numLinks
+
+theorem LenOK.of_wf {s : Sys ℝ} {st : Spring.State ℝ} (h : Spring.State.WF s st = true) : LenOK s st := by
+  simp only [Spring.State.WF, Bool.and_eq_true, beq_iff_eq] at h
+  obtain ⟨⟨⟨⟨⟨⟨⟨⟨⟨⟨⟨_, _⟩, h1⟩, h2⟩, h3⟩, h4⟩, h5⟩, h6⟩, h7⟩, h8⟩, _⟩, _⟩ := h
+  exact ⟨h1, h3, h8⟩
+
+section compose
+variable (g : Tf ℝ) (hg : g.rot.IsUnit) (s : Sys ℝ) (st : Spring.State ℝ) (act q' qd' : List ℝ)
+  (hfr : FreeRooted s) (hwf : LenOK s st) (hact : ActAgree s st.q st.qd q' qd')
+include hg hfr hwf hact
+
+/-- stages 1+2: `joints.resolve` is equivariant -/
+theorem resolve_equiv :
+    Spring.resolve (gSys g s) (gState g s st q' qd') (toTau (gSys g s) act q' qd')
+      = (Spring.resolve s st (toTau s act st.q st.qd)).map (rotF g) := by
+  have hx := hwf.x
+  have hxi := hwf.x_i
+  have hac := hwf.a_c
+  rw [toTau_congr g s act _ _ _ _ hact]
+  generalize toTau s act st.q st.qd = tau
+  have hjf : Spring.jointForces (gSys g s) (gJ g s.parents st.a_p st.a_c st.j)
+      (gJd g s.parents st.a_p st.xd st.jd) tau = Spring.jointForces s st.j st.jd tau := by
+    show Spring.jointForces s _ _ tau = _
+    apply jointForces_congr
+    intro i hi hnf
+    have hnr : ¬ parentOf s.parents i < 0 := by
+      intro hr
+      have := (hfr.hpar i hi).1
+      exact hnf (hfr.hroot i hi (by omega))
+    have hi' : i < s.parents.length := by rw [hfr.hlen]; exact hi
+    simp only [gJ, gJd, nth_tab _ hi', if_neg hnr, and_self]
+  show Spring.assemble s.parents (gAp g s.parents st.a_p) (st.a_c.map (Tf.doTf g))
+      (st.x_i.map (Tf.doTf g)) (Spring.jointForces (gSys g s) (gJ g s.parents st.a_p st.a_c st.j)
+        (gJd g s.parents st.a_p st.xd st.jd) tau) = _
+  rw [hjf]
+  apply assemble_equiv g hg
+  · intro i hi; exact hfr.hpar i (by rw [← hfr.hlen]; exact hi)
+  · rw [hfr.hlen]; exact hxi
+  · rw [hfr.hlen]; exact hac
+  · intro i hi hr
+    have hi' : i < s.numLinks := by rw [← hfr.hlen]; exact hi
+    have := (hfr.hpar i hi').1
+    exact jointForces_free s st.j st.jd tau hi' (hfr.hroot i hi' (by omega))
+
+/-- stages 1–3: the velocity after the acceleration update is rotated -/
+theorem midXd_equiv :
+    midXd (gSys g s) (gState g s st q' qd') act = (midXd s st act).map (rotM g) := by
+  have hx := hwf.x
+  have hxi := hwf.x_i
+  have hac := hwf.a_c
+  unfold midXd
+  show Spring.accelerate (gSys g s) (Com.invInertia (gSys g s) (st.x.map (Tf.doTf g))) st.mass
+    (st.xd_i.map (rotM g))
+    (Spring.resolve (gSys g s) (gState g s st q' qd') (toTau (gSys g s) act q' qd')) = _
+  rw [resolve_equiv g hg s st act q' qd' hfr hwf hact]
+  exact accelerate_equiv g hg s _ _ st.mass st.xd_i _ (invInertia_equiv g s st.x hx)
+
+/-- stages 1–5 -/
+theorem stepXi_equiv :
+    stepXi (gSys g s) (gState g s st q' qd') act
+      = ((stepXi s st act).1.map (Tf.doTf g), (stepXi s st act).2.map (rotM g)) := by
+  have hx := hwf.x
+  have hxi := hwf.x_i
+  have hac := hwf.a_c
+  unfold stepXi
+  rw [midXd_equiv g hg s st act q' qd' hfr hwf hact]
+  show Spring.integrate (gSys g s) (st.x_i.map (Tf.doTf g)) _ (tab s.numLinks fun _ => (0 : Motion ℝ)) = _
+  have h := integrate_equiv g hg s st.x_i (midXd s st act) (tab s.numLinks fun _ => (0 : Motion ℝ)) hxi
+  rw [tab_zero_map_rotM] at h
+  exact h
+
+theorem stepXi_length : (stepXi s st act).1.length = s.numLinks ∧ (stepXi s st act).2.length = s.numLinks := by
+  simp [stepXi, Spring.integrate, tab_length]
+
+/-- stages 1–6a: world poses and velocities after the step -/
+theorem stepXw_equiv :
+    stepXw (gSys g s) (gState g s st q' qd') act
+      = ((stepXw s st act).1.map (Tf.doTf g), (stepXw s st act).2.map (rotM g)) := by
+  unfold stepXw
+  rw [stepXi_equiv g hg s st act q' qd' hfr hwf hact]
+  exact toWorld_equiv g hg s _ _ (stepXi_length g hg s st act q' qd' hfr hwf hact).1
+
+theorem stepXw_length : (stepXw s st act).1.length = s.numLinks ∧ (stepXw s st act).2.length = s.numLinks := by
+  simp [stepXw, Com.toWorld, tab_length]
+
+/-- **C05, whole-step equivariance of the spring pipeline (contact-free).**  Stepping the
+transformed state in the transformed system gives the transform of the stepped state, field by
+field; `q`, `qd` are `kinematics.inverse` (`inv`) of the transformed `j`, `jd`. -/
+theorem spring_step_equivariant (inv : List (Tf ℝ) → List (Motion ℝ) → List ℝ × List ℝ)
+    (hlinks : s.links.length = s.numLinks) :
+    Spring.step inv (fun _ => []) (gSys g s) (gState g s st q' qd') act
+      = gState g s (Spring.step inv (fun _ => []) s st act)
+          (inv (gJ g s.parents (Spring.step inv (fun _ => []) s st act).a_p
+                  (Spring.step inv (fun _ => []) s st act).a_c
+                  (Spring.step inv (fun _ => []) s st act).j)
+               (gJd g s.parents (Spring.step inv (fun _ => []) s st act).a_p
+                  (Spring.step inv (fun _ => []) s st act).xd
+                  (Spring.step inv (fun _ => []) s st act).jd)).1
+          (inv (gJ g s.parents (Spring.step inv (fun _ => []) s st act).a_p
+                  (Spring.step inv (fun _ => []) s st act).a_c
+                  (Spring.step inv (fun _ => []) s st act).j)
+               (gJd g s.parents (Spring.step inv (fun _ => []) s st act).a_p
+                  (Spring.step inv (fun _ => []) s st act).xd
+                  (Spring.step inv (fun _ => []) s st act).jd)).2 := by
+  have hx := hwf.x
+  obtain ⟨hw1, hw2⟩ := stepXw_length g hg s st act q' qd' hfr hwf hact
+  have hWW : stepW (gSys g s) (gState g s st q' qd') act
+      = Kin.worldToJoint (gSys g s) ((stepXw s st act).1.map (Tf.doTf g))
+          ((stepXw s st act).2.map (rotM g)) := by
+    unfold stepW
+    rw [stepXw_equiv g hg s st act q' qd' hfr hwf hact]
+  obtain ⟨hJ, hJd, hAp, hAc⟩ := worldToJoint_equiv g hg s (stepXw s st act).1 (stepXw s st act).2
+    hfr hlinks hw1 hw2
+  rw [← hWW] at hJ hJd hAp hAc
+  change _ = gJ g s.parents ((stepW s st act).map (·.2.2.1)) ((stepW s st act).map (·.2.2.2))
+    ((stepW s st act).map (·.1)) at hJ
+  change _ = gJd g s.parents ((stepW s st act).map (·.2.2.1)) (stepXw s st act).2
+    ((stepW s st act).map (·.2.1)) at hJd
+  change _ = gAp g s.parents ((stepW s st act).map (·.2.2.1)) at hAp
+  change _ = ((stepW s st act).map (·.2.2.2)).map (Tf.doTf g) at hAc
+  have hI : Com.invInertia (gSys g s) (gState g s st q' qd').x
+      = (Com.invInertia s st.x).map (conjM g.rot) := invInertia_equiv_list g s st.x hx
+  rw [step_nil_eq, step_nil_eq]
+  simp only [hJ, hJd, hAp, hAc, hI, stepXw_equiv g hg s st act q' qd' hfr hwf hact,
+    stepXi_equiv g hg s st act q' qd' hfr hwf hact]
+  rfl
+
+end compose
+
+/-! ## the root rows of the action, when the root's parent anchor is the identity
+
+For a free link as `mjcf.load_model` produces it (`link.transform = link.joint = identity`)
+`world_to_joint` gives `a_p = identity`, `j = a_c = x`, `jd = xd`; then the action of `g` on the
+root's `(j, jd)` is the action on a world pose / world velocity. -/
+
+theorem toLocal_id (a : Tf ℝ) : Tf.toLocal a Tf.id = a := by
+  cases a with | mk p r =>
+  simp only [Tf.toLocal, Tf.id, v3_sub_zero, quatInv_one, rotate_one, one_quatMul]
+
+theorem gJ_root_id (g : Tf ℝ) (parents : List Int) (a_p a_c j : List (Tf ℝ)) {i : Nat}
+    (hi : i < parents.length) (hr : parentOf parents i < 0) (hid : nth a_p i = Tf.id) :
+    nth (gJ g parents a_p a_c j) i = Tf.doTf g (nth a_c i) := by
+  rw [gJ, nth_tab _ hi, if_pos hr, hid, toLocal_id]
+
+theorem gJd_root_id (g : Tf ℝ) (parents : List Int) (a_p : List (Tf ℝ)) (xd jd : List (Motion ℝ))
+    {i : Nat} (hi : i < parents.length) (hr : parentOf parents i < 0) (hid : nth a_p i = Tf.id) :
+    nth (gJd g parents a_p xd jd) i = rotM g (nth xd i) := by
+  rw [gJd, nth_tab _ hi, if_pos hr, hid]
+  simp only [Tf.id, invRotate, quatInv_one, rotate_one, rotM]
+
+theorem gJ_nonroot (g : Tf ℝ) (parents : List Int) (a_p a_c j : List (Tf ℝ)) {i : Nat}
+    (hi : i < parents.length) (hr : ¬ parentOf parents i < 0) :
+    nth (gJ g parents a_p a_c j) i = nth j i := by
+  rw [gJ, nth_tab _ hi, if_neg hr]
+
+theorem gJd_nonroot (g : Tf ℝ) (parents : List Int) (a_p : List (Tf ℝ)) (xd jd : List (Motion ℝ))
+    {i : Nat} (hi : i < parents.length) (hr : ¬ parentOf parents i < 0) :
+    nth (gJd g parents a_p xd jd) i = nth jd i := by
+  rw [gJd, nth_tab _ hi, if_neg hr]
+
+/-! ## several steps -/
+
+/-- `act ↦ step` folded over a list of controls (contact-free) -/
+noncomputable def steps (inv : List (Tf ℝ) → List (Motion ℝ) → List ℝ × List ℝ) (s : Sys ℝ)
+    (st : Spring.State ℝ) (acts : List (List ℝ)) : Spring.State ℝ :=
+  acts.foldl (fun st a => Spring.step inv (fun _ => []) s st a) st
+
+/-- what the several-step theorem needs from `kinematics.inverse`: the generalized coordinates an
+actuator reads are computed from the `(j, jd)` rows of non-root links only.  (The real
+`kinematics.inverse` computes the `q`/`qd` slice of every link from that link's own row, and
+actuated dofs belong to non-root links.) -/
+def InvLocal (s : Sys ℝ) (inv : List (Tf ℝ) → List (Motion ℝ) → List ℝ × List ℝ) : Prop :=
+  ∀ (j j' : List (Tf ℝ)) (jd jd' : List (Motion ℝ)),
+    (∀ i, i < s.numLinks → ¬ parentOf s.parents i < 0 → nth j' i = nth j i ∧ nth jd' i = nth jd i) →
+    ActAgree s (inv j jd).1 (inv j jd).2 (inv j' jd').1 (inv j' jd').2
+
+theorem LenOK.step {s : Sys ℝ} {st : Spring.State ℝ} (inv : List (Tf ℝ) → List (Motion ℝ) → List ℝ × List ℝ)
+    (act : List ℝ) (hlinks : s.links.length = s.numLinks) :
+    LenOK s (Spring.step inv (fun _ => []) s st act) := by
+  have h1 : (stepXw s st act).1.length = s.numLinks := by simp [stepXw, Com.toWorld, tab_length]
+  have h2 : (stepXw s st act).2.length = s.numLinks := by simp [stepXw, Com.toWorld, tab_length]
+  rw [step_nil_eq]
+  refine ⟨h1, by simp [stepXi, Spring.integrate, tab_length], ?_⟩
+  show ((stepW s st act).map (·.2.2.2)).length = s.numLinks
+  rw [stepW, worldToJoint_eq_tab s _ _ hlinks h1 h2, List.length_map, tab_length]
+
+/-- **C05, whole trajectories.**  Any number of contact-free spring steps commutes with the rigid
+transform; the generalized coordinates of the two end states agree wherever an actuator reads them. -/
+theorem spring_steps_equivariant (g : Tf ℝ) (hg : g.rot.IsUnit) (s : Sys ℝ)
+    (inv : List (Tf ℝ) → List (Motion ℝ) → List ℝ × List ℝ) (hfr : FreeRooted s)
+    (hlinks : s.links.length = s.numLinks) (hinv : InvLocal s inv) (acts : List (List ℝ)) :
+    ∀ (st : Spring.State ℝ) (q' qd' : List ℝ), LenOK s st → ActAgree s st.q st.qd q' qd' →
+      ∃ q'' qd'', steps inv (gSys g s) (gState g s st q' qd') acts
+          = gState g s (steps inv s st acts) q'' qd''
+        ∧ ActAgree s (steps inv s st acts).q (steps inv s st acts).qd q'' qd'' := by
+  induction acts with
+  | nil => intro st q' qd' _ hact; exact ⟨q', qd', rfl, hact⟩
+  | cons a as ih =>
+    intro st q' qd' hlen hact
+    simp only [steps, List.foldl_cons]
+    rw [spring_step_equivariant g hg s st a q' qd' hfr hlen hact inv hlinks]
+    apply ih _ _ _ (LenOK.step inv a hlinks)
+    apply hinv
+    intro i hi hr
+    have hi' : i < s.parents.length := by rw [hfr.hlen]; exact hi
+    exact ⟨gJ_nonroot g _ _ _ _ hi' hr, gJd_nonroot g _ _ _ _ hi' hr⟩
+
+/-! ## `com.from_world` (used by `pipeline.init`) -/
+
+/-- **`com.from_world` is equivariant** -/
+theorem fromWorld_equiv (g : Tf ℝ) (hg : g.rot.IsUnit) (s : Sys ℝ) (x : List (Tf ℝ))
+    (xd : List (Motion ℝ)) (hx : x.length = s.numLinks) :
+    Com.fromWorld (gSys g s) (x.map (Tf.doTf g)) (xd.map (rotM g))
+      = ((Com.fromWorld s x xd).1.map (Tf.doTf g), (Com.fromWorld s x xd).2.map (rotM g)) := by
+  unfold Com.fromWorld
+  simp only [gSys_numLinks, gSys_links, tab_map]
+  refine Prod.ext ?_ ?_
+  · apply tab_congr; intro i hi
+    simp only [nth_map_lt _ _ (show i < x.length by omega), Tf.doTf_assoc]
+  · apply tab_congr; intro i hi
+    simp only [nth_map_lt _ _ (show i < x.length by omega), nth_map_dflt _ _ _ (rotM_zero g),
+      Tf.doTf_assoc, doTf_pos_sub, doMotion_tfPos_equiv g hg]
+
+/-! ## `pipeline.init` -/
+
+theorem forward_length (s : Sys ℝ) (q qd : List ℝ) (hl : s.links.length = s.numLinks)
+    (hp : s.parents.length = s.numLinks) : (Kin.forward s q qd).length = s.numLinks := by
+  unfold Kin.forward
+  simp only [List.length_map, Kin.scanFwd_length, List.length_zip, Kin.linkSlices_length, hl, hp]
+  simp [Sys.numLinks]
+
+/-- **`pipeline.init` is equivariant**, given that forward kinematics is (`forward_equivariant` in
+`Props/C05.lean`): the initial state of the transformed coordinates is the transform of the
+initial state -/
+theorem init_equiv_of_forward (g : Tf ℝ) (hg : g.rot.IsUnit) (s : Sys ℝ) (q qd q' qd' : List ℝ)
+    (hfr : FreeRooted s) (hlinks : s.links.length = s.numLinks)
+    (hfwd : Kin.forward s q' qd' = (Kin.forward s q qd).map (fun x => (Tf.doTf g x.1, rotM g x.2))) :
+    Spring.init (gSys g s) q' qd' = gState g s (Spring.init s q qd) q' qd' := by
+  have hF := forward_length s q qd hlinks hfr.hlen
+  have hx : ((Kin.forward s q qd).map (·.1)).length = s.numLinks := by simp [hF]
+  have hxd : ((Kin.forward s q qd).map (·.2)).length = s.numLinks := by simp [hF]
+  have h1 : (Kin.forward (gSys g s) q' qd').map (·.1) = ((Kin.forward s q qd).map (·.1)).map (Tf.doTf g) := by
+    show (Kin.forward s q' qd').map (·.1) = _
+    rw [hfwd, List.map_map, List.map_map]; rfl
+  have h2 : (Kin.forward (gSys g s) q' qd').map (·.2) = ((Kin.forward s q qd).map (·.2)).map (rotM g) := by
+    show (Kin.forward s q' qd').map (·.2) = _
+    rw [hfwd, List.map_map, List.map_map]; rfl
+  obtain ⟨hJ, hJd, hAp, hAc⟩ := worldToJoint_equiv g hg s _ _ hfr hlinks hx hxd
+  unfold Spring.init
+  simp only [h1, h2, hJ, hJd, hAp, hAc, fromWorld_equiv g hg s _ _ hx, invInertia_equiv_list g s _ hx]
+  rfl
+
+theorem LenOK.init (s : Sys ℝ) (q qd : List ℝ) (hlinks : s.links.length = s.numLinks)
+    (hp : s.parents.length = s.numLinks) : LenOK s (Spring.init s q qd) := by
+  have hF := forward_length s q qd hlinks hp
+  have hx : ((Kin.forward s q qd).map (·.1)).length = s.numLinks := by simp [hF]
+  have hxd : ((Kin.forward s q qd).map (·.2)).length = s.numLinks := by simp [hF]
+  refine ⟨hx, by simp [Spring.init, Com.fromWorld, tab_length], ?_⟩
+  show ((Kin.worldToJoint s _ _).map (·.2.2.2)).length = s.numLinks
+  rw [worldToJoint_eq_tab s _ _ hlinks hx hxd, List.length_map, tab_length]
 
 end Brax.C05L
